@@ -36,7 +36,7 @@ pub fn literal_leaves() -> Vec<V> {
     ]
 }
 
-fn make_row() -> Row {
+fn make_row() -> Rows3 {
     let mut pkg = Package::create(PackageType::Installer, Cursor::new(Vec::new())).expect("create");
     let mut cols = Vec::new();
     for (name, v) in row_columns() {
@@ -50,15 +50,37 @@ fn make_row() -> Row {
     pkg.create_table("T", cols).expect("create_table");
     let vals: Vec<Value> = row_columns().iter().map(|(_, v)| v.to_msi()).collect();
     pkg.insert_rows(Insert::into("T").row(vals)).expect("insert");
-    let mut rows = pkg.select_rows(Select::table("T")).expect("select");
-    rows.next().expect("one row")
+    let plain = {
+        let mut rows = pkg.select_rows(Select::table("T")).expect("select");
+        rows.next().expect("one row")
+    };
+    // the same row in two other shapes: all columns projected in reverse and
+    // in rotated order (results of a projection are anonymous tables, so both
+    // shapes carry the same, empty, table name)
+    let names: Vec<&str> = row_columns().iter().map(|(n, _)| *n).collect();
+    let reversed: Vec<&str> = names.iter().rev().copied().collect();
+    let mut rotated: Vec<&str> = names.clone();
+    rotated.rotate_left(5);
+    let mut shaped = |cols: &[&str]| -> Row {
+        let mut rows = pkg.select_rows(Select::table("T").columns(cols)).expect("select projected");
+        rows.next().expect("one row")
+    };
+    let rev = shaped(&reversed);
+    let rot = shaped(&rotated);
+    Rows3 { plain, rev, rot }
+}
+
+struct Rows3 {
+    plain: Row,
+    rev: Row,
+    rot: Row,
 }
 
 thread_local! {
-    static ROW: RefCell<Option<Row>> = const { RefCell::new(None) };
+    static ROW: RefCell<Option<Rows3>> = const { RefCell::new(None) };
 }
 
-fn with_row<R>(f: impl FnOnce(&Row) -> R) -> R {
+fn with_rows<R>(f: impl FnOnce(&Rows3) -> R) -> R {
     ROW.with(|r| {
         let mut r = r.borrow_mut();
         if r.is_none() {
@@ -67,6 +89,7 @@ fn with_row<R>(f: impl FnOnce(&Row) -> R) -> R {
         f(r.as_ref().unwrap())
     })
 }
+
 
 fn root_name(e: &E) -> String {
     match e {
@@ -90,7 +113,8 @@ fn literalise(e: &E, lookup: &dyn Fn(&str) -> V) -> E {
 /// Evaluates one tree through `Expr::eval(&Row)`, in column form and in
 /// literal form, against the reference.
 pub fn check_tree(e: &E) -> Check {
-    with_row(|row| {
+    with_rows(|rows3| {
+        let row = &rows3.plain;
         let lookup = |c: &str| -> V { V::from_msi(&row[c]) };
         let acc = eval_ref(e, &lookup);
         let eval_form = |tree: &E, form: &str| -> Result<V, Fail> {
@@ -110,6 +134,19 @@ pub fn check_tree(e: &E) -> Check {
             ));
         }
         if e.has_column() {
+            // one expression object, rows of differently ordered column lists:
+            // a column reference is resolved by name on every evaluation
+            let built = crate::engine::catch(|| build(e)).map_err(|(loc, msg)| Fail::new(format!("{P} panic at={loc}"), format!("building {} panicked: {msg}", e.show())))?;
+            let shapes: Vec<(&str, Value)> = [("reversed", &rows3.rev), ("rotated", &rows3.rot), ("table order", &rows3.plain), ("reversed again", &rows3.rev)].iter().map(|(n, row)| (*n, built.eval(row))).collect();
+            for (shape, v) in shapes {
+                let v = V::from_msi(&v);
+                if !acc.contains(&v) {
+                    return Err(Fail::new(
+                        format!("{P} shape-dependent op={}", root_name(e)),
+                        format!("{} evaluated to {:?} on the row with its columns in {shape} order (same object evaluated on several column orders); accepted: {:?}", e.show(), v, acc),
+                    ));
+                }
+            }
             let lit = literalise(e, &lookup);
             let got_lit = eval_form(&lit, "literal")?;
             if got_lit != got {
